@@ -341,3 +341,18 @@ func TestC18(t *testing.T) {
 		Col.Case(p.Hash(), func() string { return p.Compact() + " extra=" + clip(string(p.Extra), 400) }, r.nontrivial, r.labels, 0)
 	})
 }
+
+func TestC05(t *testing.T) {
+	spec := &GenSpec{Prop: "C05", Backings: []string{"store"}, Children: exclChildren("C05"), BigBatches: true, Hostile: true, Merge: true}
+	applyExclusions(spec)
+	Col.SetProp("C05", "a generated store-backed workload (batches incl. bulk batches, child collections, hostile keys; persistence rounds; partial / full / idle compactions; drain+reopen; NoSync on or off) runs once under a recording File wrapper -> trace of create/write/sync/unlink with 'batch i executed' and 'round covering prefix k completed' marks. Crash images: for EVERY trace position: the process-kill image (all completed operations applied), the in-flight write torn at 1, every page boundary inside it, len-1 and generated offsets; and, when syncing is on, the power-loss images: writes since the file's last completed sync applied as any subset of 4096-byte block pieces (all 2^n subsets when n <= 10, else extremes + prefixes + generated masks), each with natural and full file length; directory operations ordered and durable. Every distinct image (by content hash) is reopened with default options (a quarter also ReadOnly): the open must succeed without panic and the content must equal the reference after some batch prefix p >= the prefix covered by the last round that completed before the crash point with syncing enabled (NoSync off). evaluations = distinct crash images reopened. Non-trivial: an image taken strictly inside a round or compaction (or with unsynced pieces / a torn write) while an earlier durable round exists. Distinct = distinct image hash within its trace.")
+	rapid.Check(t, func(rt *rapid.T) {
+		p := genC05(rt, spec)
+		st := RunC05(rt, p)
+		Col.AddExtra("traces", 1)
+		Col.AddExtra("images_built", st.images)
+		Col.AddExtra("trace_ops", st.labels["trace-ops"])
+		delete(st.labels, "trace-ops")
+		Col.CaseN(p.Hash(), st.distinct, st.insideRound, st.samples, st.labels)
+	})
+}
